@@ -9,7 +9,7 @@ MEAS_FILTERS = [None, None, "m1", "m2", "m3", ""]
 TAG_KEYS = ["a", "b", "k", "bad"]
 TAG_VALS = ["x", "y", "ab", "A", "", None, "b", "abz", "li\nne", "a\r\nb,\"q\"", "x"]
 FIELD_KEYS = ["a", "b"]
-FIELD_VALS = [None, 0, 1, 2, -1, 1.5, 10, float("inf"), 2.0, 0.1, -2]
+FIELD_VALS = [None, 0, 1, 2, -1, 1.5, 10, float("inf"), 2.0, 0.1, -2, 1e16, 2.5e-07, -3e-05, 1e+22]       # (the last four print in exponent notation)
 
 
 class Gen:
@@ -339,7 +339,7 @@ class Gen:
         r = self.r
         obs = [("index_valid",), ("iter",)]
         k = r.choice(["ooo_batch", "carriers", "bad_batch", "stale_handle", "torn_update", "handle_times", "linebreaks", "zones",
-                      "remove_first", "ooo_then_remove", "nested_not", "reset_then_time", "nan_fields", "epoch", "sparse_write", "sparse_write", "future_untimed", "range_ends", "noop_compose", "substring_names", "same_size", "getter_memo", "handle_sorted", "odd_strings", "shared_maps", "hash_twins", "same_count", "redate", "fold_twins", "big_ties", "handle_unset", "same_row_twice"])
+                      "remove_first", "ooo_then_remove", "nested_not", "reset_then_time", "nan_fields", "epoch", "sparse_write", "sparse_write", "future_untimed", "range_ends", "noop_compose", "substring_names", "same_size", "one_us_late", "getter_memo", "handle_sorted", "odd_strings", "shared_maps", "hash_twins", "same_count", "redate", "fold_twins", "big_ties", "handle_unset", "same_row_twice"])
         pref = self.profile.get("scenario_pref")
         if pref and r.random() < 0.5:
             k = r.choice(pref)
@@ -759,6 +759,18 @@ class Gen:
             ops += [("insert", [mk(0, 9), mk(1, 32 + 2 * short), mk(2, 9)], None, "multiple"), ("len",), ("index_valid",),
                     ("remove", ("S", "time", [], ("cmp", "==", ("t", T0 + 1 * SEC))), None)] + ([("len",)] if r.random() < 0.3 else []) + [("insert", [mk(3, short)], None),
                     ("insert", [mk(4, short)], None), ("len",), ("handle", "m1", ("len",)), ("get_timestamps", None)]
+        elif k == "one_us_late":
+            # a point arrives exactly ONE microsecond before the newest indexed one (for several microsecond values: floats carry them inexactly):
+            # it is out of order, whatever the index does about it the time comparisons that follow must be those of a rebuild
+            t = T0
+            ops += [("insert", [self.point(T0 - 100 * SEC)], None)]
+            for us in r.sample([333333, 1, 999999, 500001, 123457, 654321, 7, 250000], 4):
+                t += 3 * SEC
+                a = t + us
+                ops += [("insert", [self.point(a)], None), ("count", ("S", "time", [], ("cmp", ">=", ("t", T0))), None), ("index_valid",),
+                        ("insert", [self.point(a - 1)], None), ("index_valid",),
+                        ("count", ("S", "time", [], ("cmp", "<", ("t", a))), None), ("contains", ("S", "time", [], ("cmp", "==", ("t", a - 1))), None),
+                        ("count", ("S", "time", [], ("cmp", "<=", ("t", a - 1))), None), ("get_timestamps", None)]
         elif k == "shared_maps":
             # a batch of points built from ONE tags mapping and ONE fields mapping (the harness hands equal mappings of a batch over as one
             # object): updates of a subset, of all, unsets, and an update that fails part-way must treat every point as having its own
